@@ -642,6 +642,19 @@ example : ∃ hostport localport info,
     heartbeat_post ⟨3⟩ {} inv_empty sampleHb (by decide) 0x01010101 1234 1000 (replyBytes sampleHb.id 0x01010101 1234) (by decide)
   exact ⟨hp, lp, info, h⟩
 
+set_option maxRecDepth 20000 in
+/-- the hypothesis of `heartbeat_post_abs` is satisfiable: the abstract step answers `sampleHb` -/
+example : (absStep ⟨3⟩ {} 0x01010101 1234 (.heartbeat sampleHb) 1000).2 = some (replyBytes sampleHb.id 0x01010101 1234) := by decide
+
+/-- the hypotheses of `infoOf_field` are satisfiable: position 5 of the schema is `NumPlayers`, read from `numplayers` -/
+example : ∃ i, infoOf (fieldsOf sampleHb.kvs) = some i ∧ i[5]? = some (.int 3) := by
+  cases h : infoOf (fieldsOf sampleHb.kvs) with
+  | none => exact absurd h (by decide)
+  | some i =>
+    refine ⟨i, rfl, ?_⟩
+    rw [(infoOf_field _ i h 5 "NumPlayers" (some (ascii "numplayers")) 0 ["gte=0"] (by decide)).1]
+    decide
+
 /-- the hypothesis of `infoOf_named` is satisfiable and the conclusion tells `numplayers` from `maxplayers` -/
 example : ∃ i, infoOf (fieldsOf sampleHb.kvs) = some i ∧
     infoField i "NumPlayers" = some (.int 3) ∧ infoField i "MaxPlayers" = some (.int 16) := by
@@ -651,6 +664,66 @@ example : ∃ i, infoOf (fieldsOf sampleHb.kvs) = some i ∧
     refine ⟨i, rfl, ?_, ?_⟩
     · rw [(infoOf_named _ i h "NumPlayers" "numplayers" 0 (by decide)).1]; decide
     · rw [(infoOf_named _ i h "MaxPlayers" "maxplayers" 0 (by decide)).1]; decide
+
+/-- **Postcondition of an owner's removal.** C04 clause "a heartbeat with statechanged=2 from the owner removes
+server and instance without a reply", stated directly.  For a well-formed heartbeat carrying `statechanged=2`
+whose `hostport`/`localport` read as numbers, `hostport ∈ 1..65535`, from an acceptable source IP: if the server
+`(ip, hostport)` exists and the presented instance id is bound to an address of the SAME IP, then afterwards
+`servers[(ip, hostport)]` and `instances[id]` are absent, every other server and instance entry is unchanged, the
+probe queue is untouched and nothing is sent. -/
+theorem removal_post (cfg : Cfg) (st : AbsState) (hinv : Inv st) (d : Hb) (hwf : WfHeartbeat d) (ip port : Nat) (now : Int)
+    (hostport localport : Int)
+    (h1 : ((fieldsOf d.kvs).get? kHostport).bind atoi = some hostport)
+    (h2 : ((fieldsOf d.kvs).get? kLocalport).bind atoi = some localport)
+    (hlo : 1 ≤ hostport) (hhi : hostport ≤ 65535) (hip : ipAccepted ip = true)
+    (hs : (fieldsOf d.kvs).get? kStatechanged = some [0x32])
+    (row : SRow) (hrow : st.servers[(⟨ip, hostport⟩ : Addr).key]? = some row)
+    (ia : Addr) (t : Int) (hb : st.instances[idNat d.id]? = some (ia, t)) (hown : ia.ip = ip) :
+    let st' := (dispatch cfg st ip port (encodeHeartbeat d) now).1
+    st'.servers[(⟨ip, hostport⟩ : Addr).key]? = none ∧ st'.instances[idNat d.id]? = none ∧
+    (∀ k : Nat, k ≠ (⟨ip, hostport⟩ : Addr).key → st'.servers[k]? = st.servers[k]?) ∧
+    (∀ j : Nat, j ≠ idNat d.id → st'.instances[j]? = st.instances[j]?) ∧
+    st'.queue = st.queue ∧ st'.nextId = st.nextId ∧
+    replyOf (dispatch cfg st ip port (encodeHeartbeat d) now).2 = none := by
+  intro st'
+  have href := heartbeat_refines cfg st hinv d hwf ip port now
+  have hst : st' = { st with servers := st.servers.erase (⟨ip, hostport⟩ : Addr).key, instances := st.instances.erase (idNat d.id) } := by
+    show (dispatch cfg st ip port (encodeHeartbeat d) now).1 = _
+    rw [href.1]
+    unfold absStep
+    simp only [h1, h2]
+    have hn : ¬ (hostport < 1 ∨ hostport > 65535 ∨ (!ipAccepted ip) = true) := by
+      rw [hip]; simp; omega
+    rw [if_neg hn]
+    simp only [hs, if_true, hrow, hb]
+    rw [if_neg (by simp [hown])]
+  refine ⟨?_, ?_, ?_, ?_, ?_, ?_, removal_silent cfg st hinv d hwf hs ip port now⟩
+  · rw [hst]; simp
+  · rw [hst]; simp
+  · intro k hk
+    rw [hst]
+    simp only [ExtTreeMap.getElem?_erase, Nat.compare_eq_eq]
+    rw [if_neg (Ne.symm hk)]
+  · intro j hj
+    rw [hst]
+    simp only [ExtTreeMap.getElem?_erase, Nat.compare_eq_eq]
+    rw [if_neg (Ne.symm hj)]
+  · rw [hst]
+  · rw [hst]
+
+/-- the removal of `sampleHb`'s server by its owner -/
+def sampleRemoval : Hb := ⟨sampleHb.id,
+  [(ascii "hostport", ascii "10480"), (ascii "localport", ascii "10481"), (ascii "statechanged", ascii "2")], []⟩
+
+set_option maxRecDepth 20000 in
+/-- the hypotheses of `removal_post` are jointly satisfiable (state: `sampleState`, the owner 1.1.1.1 removes) and
+the server is indeed gone -/
+example : (dispatch ⟨3⟩ sampleState 0x01010101 1234 (encodeHeartbeat sampleRemoval) 2024).1.servers[(⟨0x01010101, 10480⟩ : Addr).key]? = none :=
+  (removal_post ⟨3⟩ sampleState (C05.dispatch_safe ⟨3⟩ {} 0x01010101 1234 _ 1000 inv_empty).1 sampleRemoval (by decide)
+    0x01010101 1234 2024 10480 10481 (by decide) (by decide) (by decide) (by decide) (by decide) (by decide)
+    ⟨⟨⟨0x01010101, 10480⟩, 10481, Status.master ||| Status.info ||| Status.portRetry,
+        (sampleRow.map (·.svr.info)).getD [], ⟨zeroInfo, [], []⟩, some 1000, 2⟩, 1000⟩ (by decide)
+    ⟨0x01010101, 10480⟩ 1000 (by decide) rfl).1
 
 /-- non-vacuity: a concrete well-formed heartbeat with an unknown pair and invalid UTF-8 in a value -/
 example : WfHeartbeat ⟨[0xde, 0xad, 0xbe, 0xef],
